@@ -197,7 +197,8 @@ CHECKS["C03"] = (
     "variances, prior slots and capped K variance; the generated posterior path (all sizes, any state) leaves Ainv = Lambda^-1 + M^T C_s^-1 M and, "
     "given the solver's contract, a with Ainv a = M^T C_s^-1 y + Lambda^-1 mu, and returns the marginal path's value (C03_posterior_is_conditional); (MathComp, any field, all n, k) (y-Mx)^T C_s^-1 (y-Mx) + (x-mu)^T Lambda^-1 (x-mu) = (x-a)^T A^-1 "
     "(x-a) + (M mu-y)^T B^-1 (M mu-y) with A^-1 = Lambda^-1 + M^T C_s^-1 M and A^-1 a = Lambda^-1 mu + M^T C_s^-1 y, i.e. N(a, A) is the exact "
-    "conditional; (lists) output row n*n_linear_samples+j = sample n's nonlinear parameters ++ its j-th draw. Per run: Coq certifies on every "
+    "conditional -- over Coq's reals (Props/C03r.v, C03_conditional_density_real) ln N(x | a, A) = ln N(y | M x, C_s) + ln N(x | mu, Lambda) - ln N(y | M mu, B) "
+    "for every x, and the recorded (mean, cov) are also observed on the cache-file path through a recording pool; (lists) output row n*n_linear_samples+j = sample n's nonlinear parameters ++ its j-th draw. Per run: Coq certifies on every "
     "generated input that the generated loops produce exactly that (a, A^-1), that the (mean, cov) the implementation hands to "
     "Generator.multivariate_normal (recorded through a Generator subclass passed as rng) are that a and the exact inverse of that A^-1 to 1e-4 "
     "posterior sigma, and that the returned rows are bit-for-bit the model's layout of the recorded draws.",
